@@ -499,12 +499,8 @@ func r03f(c *an.Ctx) {
 		if k, isK := an.ConstString(a[1]); !isK || k != "run_end_time_ms" {
 			continue
 		}
-		for _, at := range an.Atoms(ci.Block()) {
-			if at.Op == token.EQL && at.Y != nil {
-				if s, isS := an.ConstString(at.Y); isS && s == "GO_ERROR" && isFieldNamed(at.X, "Event") {
-					ok = true
-				}
-			}
+		if eventIs(ci.Block(), "GO_ERROR") {
+			ok = true
 		}
 	}
 	c.Ob("core/environment.newEnvironment[before_event]|GO_ERROR-records-end-of-run", f.Pos(), ok, "before_GO_ERROR must record run_end_time_ms (shared with C10)")
